@@ -13,6 +13,7 @@ import threading
 import time
 from contextlib import contextmanager
 from abc import ABC
+from geneticengine.grammar.decorators import abstract
 from dataclasses import dataclass, is_dataclass, fields as dc_fields
 from typing import Annotated, Union
 
@@ -289,6 +290,56 @@ class HLMany(HL):
     xs: Annotated[list[HL], ListSizeBetween(1, 3)]
 
 
+# concrete start symbol that also occurs below the root (grafting in tree crossover picks nested occurrences)
+class HCItem(ABC):
+    pass
+
+
+@dataclass
+class HCBlock:
+    items: Annotated[list[HCItem], ListSizeBetween(0, 2)]
+
+
+@dataclass
+class HCLit(HCItem):
+    v: Annotated[int, IntRange(0, 3)]
+
+
+@dataclass
+class HCNest(HCItem):
+    b: HCBlock
+
+
+# an abstract extension point without productions: some symbols cannot reach a terminal (max node depth is infinite)
+class HX(ABC):
+    pass
+
+
+@abstract
+class HXHole(HX):
+    pass
+
+
+@dataclass
+class HXLit(HX):
+    v: Annotated[int, IntRange(0, 3)]
+
+
+@dataclass
+class HXAdd(HX):
+    l: HX
+    r: HX
+
+
+@dataclass
+class HXHook(HX):
+    h: HXHole
+
+
+def unproductive_grammar():
+    return ("H-hole", [HX, HXHole, HXLit, HXAdd, HXHook], HX, True, "Lit | Add(l,r) | Hook(h: Hole) where the abstract Hole has no production")
+
+
 def extra_grammars():
     """(name, classes, start, refined?, description)"""
     return [
@@ -298,6 +349,7 @@ def extra_grammars():
         ("H-dependent", [HDPair], HDPair, True, "Pair(a:IntRange(0,3), b:Dependent(a -> IntRange(a,4)))"),
         ("H-infeasible", [HI, HIGood, HIBad, HIWrap], HI, True, "Good | Bad(a, name:Dependent(a -> VarRange(['x'] if a else []))) | Wrap(l,r)"),
         ("H-lists", [HL, HLLeaf, HLMany], HL, True, "Leaf(s:StringSizeBetween(1,4)) | Many(xs:ListSizeBetween(1,3))"),
+        ("H-concrete-rec", [HCBlock, HCItem, HCLit, HCNest], HCBlock, True, "concrete start Block(items) that recurs through Nest(b: Block)"),
     ]
 
 
